@@ -7,6 +7,8 @@
 #include <Bpp/Numeric/VectorTools.h>
 #include <Bpp/Numeric/NumTools.h>
 #include <Bpp/Numeric/Stat/StatTools.h>
+#include <Bpp/Numeric/AdaptiveKernelDensityEstimation.h>
+#include <Bpp/Numeric/Matrix/Matrix.h>
 #include <cmath>
 using namespace bpp; using namespace verif;
 typedef std::vector<double> V;
@@ -31,6 +33,160 @@ static std::vector<V> vecs(const Toks& t, size_t from) {
   return r;
 }
 static bool flag(const Toks& t, size_t i) { return t.at(i) == "1"; }
+
+
+// ---- round 2 helpers
+static std::string FVV(const std::vector<V>& vv) {
+  if (vv.empty()) return "none";
+  std::string s; for (size_t i = 0; i < vv.size(); ++i) { if (i) s += " ; "; s += FV(vv[i]); } return s;
+}
+static size_t N(double d) { return static_cast<size_t>(d); }
+static std::string common(const std::vector<size_t>& l) {
+  if (l.empty()) return "-";
+  for (size_t x : l) if (x != l[0]) return "x";
+  return std::to_string(l[0]);
+}
+// the list of vectors of `; v1 ; v2 ...`
+static std::vector<V> vlist(const Toks& t) { auto a = vecs(t, 1); a.erase(a.begin()); return a; }
+
+static std::string run2(const Toks& t) {
+  const std::string& o = t[0];
+  // ---- weighted moments, every option pair
+  if (o == "sdw") { auto a = vecs(t, 3); return F(VectorTools::sd<double, double>(a.at(0), a.at(1), flag(t, 1), flag(t, 2))); }
+  if (o == "covw4") { auto a = vecs(t, 3); return F(VectorTools::cov<double, double>(a.at(0), a.at(1), a.at(2), flag(t, 1), flag(t, 2))); }
+  if (o == "varw4") { auto a = vecs(t, 3); return F(VectorTools::var<double, double>(a.at(0), a.at(1), flag(t, 1), flag(t, 2))); }
+  if (o == "cosw") { auto a = vecs(t, 1); return F(VectorTools::cos<double, double>(a.at(0), a.at(1), a.at(2))); }
+  if (o == "kron") { auto a = vecs(t, 1); return FV(VectorTools::kroneckerMult(a.at(0), a.at(1))); }
+  // ---- compound operators with a constant
+  if (o == "fillc") { auto a = vecs(t, 1); V x = a.at(0); x &= a.at(1).at(0); return FV(x); }
+  if (o == "fill") { auto a = vecs(t, 1); V x = a.at(0); VectorTools::fill(x, a.at(1).at(0)); return FV(x); }
+  if (o == "addceq" || o == "subceq" || o == "mulceq" || o == "divceq") {
+    auto a = vecs(t, 1); V x = a.at(0); double c = a.at(1).at(0);
+    if (o == "addceq") x += c; else if (o == "subceq") x -= c; else if (o == "mulceq") x *= c; else x /= c;
+    return FV(x);
+  }
+  // ---- element-wise functions
+  if (o == "vlog") { auto a = vecs(t, 1); return FV(VectorTools::log(a[0])); }
+  if (o == "vexp") { auto a = vecs(t, 1); return FV(VectorTools::exp(a[0])); }
+  if (o == "vcos") { auto a = vecs(t, 1); return FV(VectorTools::cos(a[0])); }
+  if (o == "vsin") { auto a = vecs(t, 1); return FV(VectorTools::sin(a[0])); }
+  if (o == "vlog10") { auto a = vecs(t, 1); return FV(VectorTools::log10(a[0])); }
+  if (o == "vsqr") { auto a = vecs(t, 1); return FV(VectorTools::sqr(a[0])); }
+  if (o == "vabs") { auto a = vecs(t, 1); return FV(VectorTools::abs(a[0])); }
+  if (o == "vlogb") { auto a = vecs(t, 1); return FV(VectorTools::log(a.at(1), a.at(0).at(0))); }
+  if (o == "vpow") { auto a = vecs(t, 1); double b = a.at(0).at(0); return FV(VectorTools::pow(a.at(1), b)); }
+  if (o == "vfact") { auto a = vecs(t, 1); return FV(VectorTools::fact(a[0])); }
+  // ---- NumTools scalar helpers
+  if (o == "ntabs") return F(NumTools::abs(hexToDouble(t.at(1))));
+  if (o == "ntsign") return F(NumTools::sign(hexToDouble(t.at(1))));
+  if (o == "ntsqr") return F(NumTools::sqr(hexToDouble(t.at(1))));
+  if (o == "ntfact") return F(NumTools::fact(hexToDouble(t.at(1))));
+  if (o == "ntlogfact") return F(NumTools::logFact(hexToDouble(t.at(1))));
+  if (o == "ntmax") return F(NumTools::max(hexToDouble(t.at(1)), hexToDouble(t.at(2))));
+  if (o == "ntmin") return F(NumTools::min(hexToDouble(t.at(1)), hexToDouble(t.at(2))));
+  if (o == "ntsign2") return F(NumTools::sign(hexToDouble(t.at(1)), hexToDouble(t.at(2))));
+  if (o == "ntswap") {
+    auto a = vecs(t, 1).at(0);
+    if (a.size() == 2) { NumTools::swap(a[0], a[1]); return FV(a); }
+    if (a.size() == 3) { NumTools::shift(a[0], a[1], a[2]); return FV(V{a[0], a[1]}); }
+    if (a.size() == 4) { NumTools::shift(a[0], a[1], a[2], a[3]); return FV(V{a[0], a[1], a[2]}); }
+    return "bad-op";
+  }
+  // ---- histogram helpers
+  if (o == "breaks") { auto a = vecs(t, 1); return FV(VectorTools::breaks(a.at(1), static_cast<unsigned int>(a.at(0).at(0)))); }
+  if (o == "nclass") { auto a = vecs(t, 1); return std::to_string(VectorTools::nclassScott(a[0])); }
+  // ---- extract, countValues
+  if (o == "extract") { auto a = vecs(t, 1); std::vector<size_t> pos; for (double d : a.at(0)) pos.push_back(N(d)); return FV(VectorTools::extract(a.at(1), pos)); }
+  if (o == "countvalues") {
+    auto a = vecs(t, 1); auto m = VectorTools::countValues(a[0]);
+    if (m.empty()) return "-";
+    std::string s; for (auto& kc : m) { if (!s.empty()) s += " "; s += F(kc.first) + " " + std::to_string(kc.second); } return s;
+  }
+  // ---- lists of vectors
+  if (o == "unionlist") return FV(VectorTools::vectorUnion(vlist(t)));
+  if (o == "interlist") return FV(VectorTools::vectorIntersection(vlist(t)));
+  if (o == "appendlist") return FV(VectorTools::append(vlist(t)));
+  if (o == "extend") { auto a = vecs(t, 1); V x = a.at(0); VectorTools::extend(x, a.at(1)); return FV(x); }
+  if (o == "append2") { auto a = vecs(t, 1); V x = a.at(0); VectorTools::append(x, a.at(1)); return FV(x); }
+  if (o == "prepend") { auto a = vecs(t, 1); V x = a.at(0); VectorTools::prepend(x, a.at(1)); return FV(x); }
+  if (o == "rep") { auto a = vecs(t, 1); return FV(VectorTools::rep(a.at(1), N(a.at(0).at(0)))); }
+  // ---- overloads that sort in place
+  if (o == "havesame2") { auto a = vecs(t, 1); V x = a.at(0), y = a.at(1); bool b = VectorTools::haveSameElements(x, y); return B(b) + " ; " + FV(x) + " ; " + FV(y); }
+  if (o == "containsall2") { auto a = vecs(t, 1); V x = a.at(0), y = a.at(1); bool b = VectorTools::containsAll(x, y); return B(b) + " ; " + FV(x) + " ; " + FV(y); }
+  if (o == "diff3") { auto a = vecs(t, 1); V x = a.at(0), y = a.at(1), z = a.at(2); VectorTools::diff(x, y, z); return FV(x) + " ; " + FV(y) + " ; " + FV(z); }
+  // ---- mixed-type overloads (U = int)
+  if (o == "containsu") { auto a = vecs(t, 1); int el = static_cast<int>(a.at(0).at(0)); return B(VectorTools::contains(a.at(1), el)); }
+  if (o == "intertu") { auto a = vecs(t, 1); std::vector<int> y; for (double d : a.at(1)) y.push_back(static_cast<int>(d)); return FV(VectorTools::vectorIntersection(a.at(0), y)); }
+  // ---- resize
+  if (o == "resize2") {
+    auto a = vecs(t, 1); VVdouble vv(a.begin() + 1, a.end());
+    VectorTools::resize2(vv, N(a[0].at(0)), N(a[0].at(1))); return FVV(vv);
+  }
+  if (o == "resize3") {
+    auto a = vecs(t, 1).at(0); VVVdouble v;
+    VectorTools::resize3(v, N(a.at(0)), N(a.at(1)), N(a.at(2)));
+    for (auto& x : v) for (auto& y : x) for (auto& z : y) z = 1.;
+    VectorTools::resize3(v, N(a.at(3)), N(a.at(4)), N(a.at(5)));
+    std::vector<size_t> s2, s3; double sum = 0;
+    for (auto& x : v) { s2.push_back(x.size()); for (auto& y : x) { s3.push_back(y.size()); for (double z : y) sum += z; } }
+    return std::to_string(v.size()) + " " + common(s2) + " " + common(s3) + " " + F(sum);
+  }
+  if (o == "resize4") {
+    auto a = vecs(t, 1).at(0); VVVVdouble v;
+    VectorTools::resize4(v, N(a.at(0)), N(a.at(1)), N(a.at(2)), N(a.at(3)));
+    for (auto& x : v) for (auto& y : x) for (auto& z : y) for (auto& u : z) u = 1.;
+    VectorTools::resize4(v, N(a.at(4)), N(a.at(5)), N(a.at(6)), N(a.at(7)));
+    std::vector<size_t> s2, s3, s4; double sum = 0;
+    for (auto& x : v) { s2.push_back(x.size()); for (auto& y : x) { s3.push_back(y.size()); for (auto& z : y) { s4.push_back(z.size()); for (double u : z) sum += u; } } }
+    return std::to_string(v.size()) + " " + common(s2) + " " + common(s3) + " " + common(s4) + " " + F(sum);
+  }
+  // ---- calls that leave trailing arguments to their defaults
+  if (o == "dcov") { auto a = vecs(t, 1); return F(VectorTools::cov<double, double>(a.at(0), a.at(1))); }
+  if (o == "dvar") { auto a = vecs(t, 1); return F(VectorTools::var<double, double>(a.at(0))); }
+  if (o == "dsd") { auto a = vecs(t, 1); return F(VectorTools::sd<double, double>(a.at(0))); }
+  if (o == "dmeanw") { auto a = vecs(t, 1); return F(VectorTools::mean<double, double>(a.at(0), a.at(1))); }
+  if (o == "dcenterw") { auto a = vecs(t, 1); return FV(VectorTools::center<double, double>(a.at(0), a.at(1))); }
+  if (o == "dcorw") { auto a = vecs(t, 1); return F(VectorTools::cor<double, double>(a.at(0), a.at(1), a.at(2))); }
+  if (o == "dcovw") { auto a = vecs(t, 1); return F(VectorTools::cov<double, double>(a.at(0), a.at(1), a.at(2))); }
+  if (o == "dvarw") { auto a = vecs(t, 1); return F(VectorTools::var<double, double>(a.at(0), a.at(1))); }
+  if (o == "dsdw") { auto a = vecs(t, 1); return F(VectorTools::sd<double, double>(a.at(0), a.at(1))); }
+  if (o == "dcovw1") { auto a = vecs(t, 2); return F(VectorTools::cov<double, double>(a.at(0), a.at(1), a.at(2), flag(t, 1))); }
+  if (o == "dvarw1") { auto a = vecs(t, 2); return F(VectorTools::var<double, double>(a.at(0), a.at(1), flag(t, 1))); }
+  if (o == "dsdw1") { auto a = vecs(t, 2); return F(VectorTools::sd<double, double>(a.at(0), a.at(1), flag(t, 1))); }
+  if (o == "dshannon") { auto a = vecs(t, 1); return F(VectorTools::shannon<double, double>(a.at(0))); }
+  if (o == "dshannondisc") { auto a = vecs(t, 1); return F(VectorTools::shannonDiscrete<double, double>(a.at(0))); }
+  if (o == "dmidisc") { auto a = vecs(t, 1); return F(VectorTools::miDiscrete<double, double>(a.at(0), a.at(1))); }
+  // ---- continuous entropy: the answer and the kernel densities it was computed from (the same
+  //      estimator objects the routine builds: one row per variable, one column per point)
+  if (o == "shannoncont" || o == "dshannoncont") {
+    bool dflt = o[0] == 'd';
+    auto a = vecs(t, 1); const V& v = a.at(dflt ? 0 : 1);
+    double r = dflt ? VectorTools::shannonContinuous<double, double>(v)
+                    : VectorTools::shannonContinuous<double, double>(v, a.at(0).at(0));
+    LinearMatrix<double> m(1, v.size());
+    for (size_t i = 0; i < v.size(); i++) m(0, i) = v[i];
+    AdaptiveKernelDensityEstimation kd(m);
+    V d; std::vector<double> x(1);
+    for (double it : v) { x[0] = it; d.push_back(kd.kDensity(x)); }
+    return F(r) + " ; " + FV(d);
+  }
+  if (o == "micont" || o == "dmicont") {
+    bool dflt = o[0] == 'd';
+    auto a = vecs(t, 1); const V& v1 = a.at(dflt ? 0 : 1); const V& v2 = a.at(dflt ? 1 : 2);
+    double r = dflt ? VectorTools::miContinuous<double, double>(v1, v2)
+                    : VectorTools::miContinuous<double, double>(v1, v2, a.at(0).at(0));
+    LinearMatrix<double> m1(1, v1.size()), m2(1, v2.size()), m12(2, v1.size());
+    for (size_t i = 0; i < v1.size(); i++) { m1(0, i) = m12(0, i) = v1[i]; m2(0, i) = m12(1, i) = v2[i]; }
+    AdaptiveKernelDensityEstimation kd1(m1), kd2(m2), kd12(m12);
+    V d12, d1, d2; std::vector<double> x1(1), x2(1), x12(2);
+    for (size_t i = 0; i < v1.size(); i++) {
+      x1[0] = x12[0] = v1[i]; x2[0] = x12[1] = v2[i];
+      d12.push_back(kd12.kDensity(x12)); d1.push_back(kd1.kDensity(x1)); d2.push_back(kd2.kDensity(x2));
+    }
+    return F(r) + " ; " + FV(d12) + " ; " + FV(d1) + " ; " + FV(d2);
+  }
+  return "bad-op";
+}
 
 static std::string run(const Toks& t) {
   const std::string& o = t[0];
@@ -123,7 +279,7 @@ static std::string run(const Toks& t) {
     return F(NumTools::logsum(a, b)) + " " + F(NumTools::logsum(b, a)); }
   // ---- StatTools
   if (o == "fdr") { auto a = vecs(t, 1); return FV(StatTools::computeFdr(a[0])); }
-  return "bad-op";
+  return run2(t);
 }
 
 int main() {
